@@ -102,7 +102,12 @@ impl<R: Records, S> DatasetBase<R, S> {
 
     /// Updates the weights of a dataset
     pub fn with_weights(mut self, weights: Array1<f32>) -> DatasetBase<R, S> {
-        self.weights = weights;
+        // `weights()` hands out a slice: a sliced or reversed array is stored as a contiguous copy
+        self.weights = if weights.as_slice().is_some() {
+            weights
+        } else {
+            weights.as_standard_layout().into_owned()
+        };
 
         self
     }
